@@ -441,6 +441,13 @@ func runC08(tier string, seed uint64) int {
 			f.PodsOnly, f.AllNsObjs, f.NANPs, f.BANP = true, true, r.between(2, 4), r.chance(1, 2)
 			w = genWorld(r, f)
 		}
+		if i%15 == 7 && len(w.Workloads) > 0 {
+			// a world the analysis cannot answer: a rule that allows everything next to a rule whose named port
+			// meets an address. Every command fails; it must fail in every order of rules, files and map slots.
+			wn := pick(r, w.Workloads)
+			w.Docs = append(w.Docs, Doc{Kind: "NetworkPolicy", NS: wn[:strings.Index(wn, "/")], Name: "np-unanswerable", Text: "apiVersion: networking.k8s.io/v1\nkind: NetworkPolicy\nmetadata:\n  name: np-unanswerable\n  namespace: " +
+				wn[:strings.Index(wn, "/")] + "\nspec:\n  podSelector: {}\n  policyTypes:\n  - Egress\n  egress:\n  - {}\n  - to:\n    - ipBlock:\n        cidr: 10.0.0.0/8\n    ports:\n    - port: dns\n      protocol: UDP\n"})
+		}
 		c := &c08Case{name: fmt.Sprintf("gen:%d", i), relayout: true, docs: w.Docs, docs2: editSet(r, w.Docs, &f), hasAdmin: w.HasAdmin}
 		if f.PodsOnly && len(w.Pods) >= 2 {
 			for q := 0; q < 4; q++ {
